@@ -504,13 +504,43 @@ var c01Probes = []struct{ name, entry, data string }{
 	{"json-bad-key", "json.parser", "{[]}"},
 }
 
+// counters of the scope tables are 16 bits wide (Var.Uses, NumForDecls, NumFuncArgs, NumArgUses): inputs that make
+// them wrap around
+func init() {
+	add := func(name, data string) {
+		c01Probes = append(c01Probes, struct{ name, entry, data string }{name, "js.Parse", data})
+	}
+	many := func(n int, f func(i int) string) string {
+		var sb strings.Builder
+		for i := 0; i < n; i++ {
+			sb.WriteString(f(i))
+		}
+		return sb.String()
+	}
+	use := func(n int) string { return strings.Repeat("a;", n) }
+	add("js-uses-wrap-then-bare-arrow", "var a;"+use(65534)+"a=>1")
+	add("js-uses-wrap-then-bare-arrow-2", "var a;"+use(65535)+"a=>1;a=>a")
+	add("js-uses-wrap-undeclared-then-arrow", use(65535)+"a=>1")
+	add("js-uses-wrap-undeclared-then-arrow-2", use(65536)+"a=>a;(a)=>a;(a);")
+	add("js-uses-wrap-then-declare", use(65536)+"var a;"+use(3)+"let b;{"+use(65537)+"let a}")
+	add("js-uses-wrap-in-parenthesised", "var a;("+strings.Repeat("a,", 65540)+"a);("+strings.Repeat("a,", 65540)+"a)=>1")
+	add("js-65540-parameters", "function f("+many(65540, func(i int) string { return fmt.Sprintf("p%d,", i) })+"q=p1){var p2;return q}")
+	add("js-65540-for-head-declarations", "for(var "+many(65540, func(i int) string { return fmt.Sprintf("v%d,", i) })+"w=0;w<v1;w++){let v2=w}")
+	add("js-65540-undeclared-in-defaults", "function f(x=["+many(65540, func(i int) string { return fmt.Sprintf("u%d,", i) })+"]){var u1;u2;let u3}")
+}
+
 func c01Probe(t *fw.T) {
 	p := c01Probes[t.Index%len(c01Probes)]
 	t.Key("probe:" + p.name)
 	t.Desc(&c01Case{Entry: p.entry, Ctor: "string+tight", Data: []byte(p.data)})
-	for _, ctor := range []string{"string", "tight", "spare"} {
+	ctors, options := []string{"string", "tight", "spare"}, jsOptions
+	if len(p.data) > 100000 {
+		// the 16-bit counter probes: scope handling is quadratic in the number of distinct names
+		ctors, options = []string{"tight"}, []js.Options{{}, {WhileToFor: true, Inline: true}}
+	}
+	for _, ctor := range ctors {
 		if p.entry == "js.Parse" {
-			for _, o := range jsOptions {
+			for _, o := range options {
 				in, _ := mkInput(t.Rng, []byte(p.data), ctor)
 				ast, err := js.Parse(in, o)
 				if err == nil && ast != nil {
